@@ -288,7 +288,7 @@ class Interp:
     def ev_event(self, guard, kind, key, idx, extra=None):
         if self.trace_on:
             self.trace.append(Event(guard, kind, key, tuple(idx), self.cur_stmt,
-                                    tuple(self.iters), extra))
+                                    tuple(self.iters), self.depth if extra is None else extra))
 
     def read(self, key, idx, guard):
         if key not in self.store:
@@ -1819,7 +1819,53 @@ class Interp:
         name = str(target).lower().replace(" ", "")
         if self.extern_handler is not None and self.extern_handler(self, name, args, frame, g):
             return
+        if name in INTRINSIC_SUBS:
+            return self.intrinsic_sub(name, args, frame, g)
         self.default_extern_call(name, args, frame, g)
+
+    def intrinsic_sub(self, name, args, frame, g):
+        """Intrinsic subroutines by their footprint from the standard: `in` arguments are read,
+        `out` arguments receive an arbitrary (fresh) value, `inout` both."""
+        names, intents = INTRINSIC_SUBS[name]
+        d = {}
+        pos = 0
+        for a in args:
+            if isinstance(a, (F.Actual_Arg_Spec, F.Component_Spec)):
+                d[lname(a.items[0])] = a.items[1]
+            else:
+                if pos >= len(names):
+                    raise Unsupported("too many arguments to " + name)
+                d[names[pos]] = a
+                pos += 1
+        for nm, intent in zip(names, intents):
+            if nm not in d:
+                continue
+            a = d[nm]
+            if intent == "in":
+                v = self.ev(a, frame, g)
+                if isinstance(v, ArrVal):
+                    n = [self._unroll_extent(e, g) for e in v.extents]
+                    for ks in _ranges(n):
+                        v.elem([z3.IntVal(k) for k in ks])
+                continue
+            lref = self.lvalue(a, frame, g)
+            if intent == "inout":
+                cur = self.read_lref(lref, g)
+                if isinstance(cur, ArrVal):
+                    n = [self._unroll_extent(e, g) for e in cur.extents]
+                    for ks in _ranges(n):
+                        cur.elem([z3.IntVal(k) for k in ks])
+            self.callcount += 1
+            if lref[0] == "scalar":
+                _, key, idx, tname = lref
+                self.write(key, idx, z3.Const(f"isub_{name}_{self.callcount}", sort_of(tname)), g)
+            elif lref[0] == "section":
+                _, key, exts, smap, tname = lref
+                fresh = uf(f"isub_{name}_{self.callcount}", *([I] * len(exts)), sort_of(tname))
+                av = ArrVal(exts, lambda ks, fresh=fresh: fresh(*ks), tname)
+                self._store_arrval(key, smap, exts, av, g, tname)
+            else:
+                raise Unsupported("structure argument to intrinsic subroutine")
 
     def default_extern_call(self, name, args, frame, g):
         """External subroutine: an observable event carrying its scalar argument values;
@@ -1905,6 +1951,15 @@ def _real_lit(s):
         fr = Fraction(s)
     return z3.RealVal(str(fr))
 
+
+INTRINSIC_SUBS = {
+    "random_number": (["harvest"], ["out"]),
+    "random_seed": (["size", "put", "get"], ["out", "in", "out"]),
+    "cpu_time": (["time"], ["out"]),
+    "system_clock": (["count", "count_rate", "count_max"], ["out", "out", "out"]),
+    "date_and_time": (["date", "time", "zone", "values"], ["out", "out", "out", "out"]),
+    "mvbits": (["from", "frompos", "len", "to", "topos"], ["in", "in", "in", "inout", "in"]),
+}
 
 _INTRINSICS = {"ABS", "SIGN", "MIN", "MAX", "MOD", "MODULO", "MERGE", "REAL", "DBLE", "FLOAT",
                "SNGL", "INT", "NINT", "SIZE", "LBOUND", "UBOUND", "SUM", "PRODUCT", "MINVAL",
